@@ -692,6 +692,10 @@ func (e *Engine) builtin(fr *Frame, st *State, b *ssa.Builtin, c *ssa.CallCommon
 		// a []byte destination is an immutable value in this model (its later reads see unconstrained bytes only if
 		// it is re-created from its array), any other element kind is havocked.
 		dst, src := args[0], args[1]
+		if dst.S == sBytes && dst.Shared != "" {
+			// copy into bytes that other code can reach: they change under the other holders (invisible in the value model)
+			e.addObligation(st, fr, "aliased-write", []string{"alias"}, "copy into "+dst.Shared+" overwrites bytes that other holders of that memory still read", e.posStr(pos), eq("(slen (b_str "+dst.T+"))", "#x0000000000000000"), nil)
+		}
 		ln := func(v *Val) string {
 			switch v.S {
 			case sBytes:
